@@ -298,4 +298,18 @@ def cstep (c : AuthCfg) (s : Conc) (tid : Nat) : Conc :=
 
 def crun (c : AuthCfg) (n : Nat) (sched : List Nat) : Conc := sched.foldl (cstep c) ⟨none, List.replicate n 0, []⟩
 
+/-! ### a provider whose answer changes (token rotation / expiry)
+
+  `answers t` = what the configured provider supplies when asked at time `t`.  `metadata()` with its cache asks only
+  while nothing is cached. -/
+def metadataAt (cache : Option Metadata) (answers : Nat → Metadata) (t : Nat) : Metadata × Option Metadata :=
+  match cache with
+  | some md => (md, cache)
+  | none => (answers t, if metadataCached then some (answers t) else none)
+
+/-- the metadata of the requests sent at the given times, starting from `cache` -/
+def sentAt (answers : Nat → Metadata) : Option Metadata → List Nat → List Metadata
+  | _, [] => []
+  | cache, t :: ts => let (md, cache') := metadataAt cache answers t; md :: sentAt answers cache' ts
+
 end Wire
